@@ -51,7 +51,7 @@ Qed.
 
 (** JMP rel8, both modes: the form is chosen from the distance measured at the START of the
     instruction, the field is relative to its END; correct exactly when rel-2 still fits. *)
-Lemma jmp_short_lands m addr dest rest : let rel := dest - addr in -126 <= rel <= 127 ->
+Lemma jmp_short_lands m addr dest rest : let rel := dest - addr in -126 <= rel <= 129 ->
   lands m BJmp addr dest (gen_jmp m rel) rest.
 Proof.
   intros rel H. unfold gen_jmp. rewrite offset_size_1 by lia.
@@ -66,7 +66,7 @@ Qed.
 (** Jcc rel8: the sixteen opcodes 70h..7Fh *)
 Definition jcc_opcodes : list Z := [112; 113; 114; 115; 116; 117; 118; 119; 120; 121; 122; 123; 124; 125; 126; 127].
 
-Lemma jcc_short_lands m opc addr dest rest : In opc jcc_opcodes -> let rel := dest - addr in -126 <= rel <= 127 ->
+Lemma jcc_short_lands m opc addr dest rest : In opc jcc_opcodes -> let rel := dest - addr in -126 <= rel <= 129 ->
   lands m (BJcc (opc - 112)) addr dest (gen_jcc opc rel) rest.
 Proof.
   intros Hin rel H. unfold gen_jcc. rewrite offset_size_1 by lia.
@@ -101,7 +101,7 @@ Qed.
 
 (** JMP rel16 in 16-bit mode (backward or to a known address beyond rel8) *)
 Lemma jmp16_near_lands addr dest rest : let rel := dest - addr in
-  -32768 <= rel <= 32767 -> ~ (-128 <= rel <= 127) -> -32768 <= rel - 3 ->
+  -32768 <= rel - 2 <= 32767 -> ~ (-128 <= rel - 2 <= 127) -> -32768 <= rel - 3 ->
   lands M16 BJmp addr dest (gen_jmp M16 rel) rest.
 Proof.
   intros rel H N H3. unfold gen_jmp. rewrite offset_size_2 by lia.
@@ -144,11 +144,19 @@ Proof.
   repeat (destruct Hcases as [->|Hcases]; [cbn; tauto|]). subst; cbn; tauto.
 Qed.
 
-(** refutation of the unrestricted statement: the rel8 form is also chosen when the target is
-    127/128 bytes before the start of the branch, where the displacement wraps (finding C04-rel8-backward-boundary) *)
-Lemma jmp_short_refuted : exists addr dest,
-  let rel := dest - addr in -128 <= rel <= 127 /\
-  forall b, decode_branch B16 (gen_jmp M16 rel) = Some b -> landing addr b <> dest mod 2 ^ 16.
+(* the boundary that used to wrap (target 127/128 bytes before the start of the jump) now takes the near form and lands *)
+Lemma jmp_backward_boundary_lands : forall addr rest, lands M16 BJmp addr (addr - 128) (gen_jmp M16 (-128)) rest /\ lands M16 BJmp addr (addr - 127) (gen_jmp M16 (-127)) rest.
 Proof.
-  exists 200, 72. cbn zeta. split; [lia|]. intros b H. vm_compute in H. inversion H; subst. vm_compute. congruence.
+  intros addr rest. split.
+  - replace (-128) with ((addr - 128) - addr) by lia. apply jmp16_near_lands; lia.
+  - replace (-127) with ((addr - 127) - addr) by lia. apply jmp16_near_lands; lia.
+Qed.
+
+Lemma jmp16_total_lands addr dest rest : let rel := dest - addr in -32767 <= rel - 2 <= 32767 ->
+  lands M16 BJmp addr dest (gen_jmp M16 rel) rest.
+Proof.
+  intros rel H. destruct (Z_le_dec (-128) (rel - 2)) as [Hl|Hl]; [destruct (Z_le_dec (rel - 2) 127) as [Hh|Hh]|].
+  - apply jmp_short_lands. fold rel. lia.
+  - apply jmp16_near_lands; fold rel; lia.
+  - apply jmp16_near_lands; fold rel; lia.
 Qed.
